@@ -142,7 +142,7 @@ type NotifyRecorder struct {
 
 func (n *NotifyRecorder) add(e NotifyEvent) {
 	n.mu.Lock()
-	e.Step = n.k.Step()
+	e.Step = n.k.StepAny()
 	n.Events = append(n.Events, e)
 	n.mu.Unlock()
 }
@@ -267,7 +267,7 @@ func (h hookCtx) OnMsg(msg base.RtmpMsg) {
 func (h hookCtx) OnStop() {
 	h.r.mu.Lock()
 	h.s.Stops++
-	h.s.StopSteps = append(h.s.StopSteps, h.r.k.Step())
+	h.s.StopSteps = append(h.s.StopSteps, h.r.k.StepAny())
 	h.r.mu.Unlock()
 }
 
@@ -347,7 +347,7 @@ func (w *World) installHook(k *sim.Kernel) {
 	w.Srv.WithOnHookSession(func(uniqueKey string, streamName string) logic.ICustomizeHookSessionContext {
 		w.Hook.mu.Lock()
 		defer w.Hook.mu.Unlock()
-		hs := &HookSession{UniqueKey: uniqueKey, Stream: streamName, StartStep: k.Step()}
+		hs := &HookSession{UniqueKey: uniqueKey, Stream: streamName, StartStep: k.StepAny()}
 		w.Hook.Sessions = append(w.Hook.Sessions, hs)
 		return hookCtx{w.Hook, hs}
 	})
